@@ -5,22 +5,25 @@
    for every single PolicySets.GetPolicySetRules result against its tier reference (L1).
 
    T_Win.cfg      strict: the first rejected case stops validation (used to confirm single cases)
-   T_Win_diag.cfg accepts every line but prints <<"REJECT", case, witness>> / <<"STAT", ...>> lines; the
-                  orchestrator uses it as the bulk pass and confirms every REJECT with the strict config *)
-EXTENDS TraceLib, WinSem
+   T_Win_diag.cfg accepts every line but prints `WIN {"kind":"reject"|"stat",...}` lines; the orchestrator
+                  uses it as the bulk pass and confirms rejected cases with the strict config             *)
+EXTENDS TraceLib, WinSem, MC_HNS      \* MC_HNS: constant-level unit tests of the models (ASSUMEs)
 
 TInit == l = 1
 
 TCase == IsEvent("case") /\ WinCaseOK(Cur)
 TNext == TCase
 
-\* verdicts reached by the probes of a case (how non-trivial the case is)
-TReached(c, probes) ==
-    { WinReference(c, dir, p) : <<dir, p>> \in { <<d, q>> \in WinDirs \X probes : WinJudged(c, d, q) } }
-
+\* bulk pass: never blocks; one "WIN <json>" line per case (and one more per rejected case)
 TDiag == /\ IsEvent("case")
-         /\ WinCaseOK(Cur) \/ PrintT(<<"REJECT", Cur.case, WinWitness(Cur)>>)
-         /\ WinCaseInScope(Cur) \/ PrintT(<<"OUTOFSCOPE", Cur.case>>)
          /\ LET probes == WinProbes(Cur)
-            IN PrintT(<<"STAT", Cur.case, Cardinality(probes), Len(Cur.acl), Len(Cur.calls), TReached(Cur, probes)>>)
+                l2 == WinL2Eval(Cur, probes)
+                ok == WinCaseOKWith(Cur, probes, l2)
+            IN /\ ok \/ PrintT("WIN " \o ToJson([kind |-> "reject", case |-> Cur.case, witness |-> WinWitness(Cur, probes, l2),
+                                                      svcmix |-> WinOnlySvcMix(Cur, probes)]))
+               \* probes, rules applied, GetPolicySetRules calls, verdicts reached (how non-trivial the case is)
+               /\ PrintT("WIN " \o ToJson([kind |-> "stat", case |-> Cur.case, ok |-> ok, inscope |-> WinCaseInScope(Cur),
+                                           probes |-> Cardinality(probes), judged |-> Cardinality(l2),
+                                           l1 |-> Len(Cur.calls) * Cardinality(probes),
+                                           acl |-> Len(Cur.acl), reached |-> SetToSeq({ x[4] : x \in l2 })]))
 =============================================================================
